@@ -457,3 +457,40 @@ m('C19','recording-dir-from-message',DW,
 m('C19','sanitise-forward-only',DW,
   '\t"\\\\", "-backslash-",\n','',
   'R19.3',"sanitise replaces",'backslash survives in recording names')
+# ---------------- C07 ----------------
+m('C07','push-any-group',W,
+  '\t\tif c.group == nil || c.group != a.group {\n\t\t\tlog.Printf("Got connectsions for wrong group")\n\t\t\treturn nil\n\t\t}','\t\tif c.group == nil {\n\t\t\treturn nil\n\t\t}',
+  'R7.1','pushed stream only for the current group','streams of a previous group offered after switching groups',quick=True)
+m('C07','request-any-group',W,
+  '\t\tif g == nil || a.group != g {\n\t\t\tlog.Printf("Misdirected pushConns")\n\t\t\treturn nil\n\t\t}','\t\tif g == nil {\n\t\t\treturn nil\n\t\t}',
+  'R7.1','streams are pushed only to requesters','streams leak to a requester of another group')
+m('C07','disk-any-group',DW,
+  '\tif client.group != g {\n\t\treturn nil\n\t}\n\n\tclient.mu.Lock()','\tclient.mu.Lock()',
+  'R7.1','diskwriter.Client.PushConn','recorder records streams of other groups')
+m('C07','offer-wrong-source',W,
+  '\t\tSource:   source,\n\t\tUsername: &username,\n\t\tSDP:      down.pc.LocalDescription().SDP,','\t\tSource:   c.id + source[:0],\n\t\tUsername: &username,\n\t\tSDP:      down.pc.LocalDescription().SDP,',
+  'R7.2','offer.Source','offer labelled with the subscriber\'s id')
+m('C07','user-returns-connection-id','rtpconn/rtpconn.go',
+  '\treturn up.client.Id(), up.client.Username()','\treturn up.id, up.client.Username()',
+  'R7.2','User() reads the owning client','offers labelled with the stream id instead of the client id')
+m('C07','close-not-pushed',W,
+  '\t\terr := delUpConn(c, m.Id, c.id, true)\n\t\tif err != nil {\n\t\t\tlog.Printf("Deleting up connection %v: %v",','\t\terr := delUpConn(c, m.Id, c.id, false)\n\t\tif err != nil {\n\t\t\tlog.Printf("Deleting up connection %v: %v",',
+  'R7.3','handleClientMessage case close','subscribers never learn that the stream was closed')
+m('C07','fanout-skips-on-error',W,
+  '\t\t\terr := c.PushConn(g, id, nil, nil, replace)\n\t\t\tif err != nil {\n\t\t\t\tlog.Printf("PushConn: %v", err)\n\t\t\t}','\t\t\terr := c.PushConn(g, id, nil, nil, replace)\n\t\t\tif err != nil {\n\t\t\t\tbreak\n\t\t\t}',
+  'R7.3','delUpConn: every other member','one failing subscriber stops the close fan-out')
+m('C07','leave-keeps-down',W,
+  '\tif c.down != nil {\n\t\tfor id := range c.down {\n\t\t\tdelDownConn(c, id)\n\t\t}\n\t}\n\n\tgroup.DelClient(c)','\tgroup.DelClient(c)',
+  'R7.3','leaving deletes every up and down connection','down connections survive leaving')
+m('C07','nothing-requested-no-close',W,
+  '\tif len(requested) == 0 {\n\t\tcloseDownConn(c, id, "")\n\t\treturn nil\n\t}','\tif len(requested) == 0 {\n\t\treturn nil\n\t}',
+  'R7.4','nothing requested','unrequested stream left open at the subscriber')
+m('C07','negotiate-failure-no-close',W,
+  '\t\tlog.Printf("Negotiation failed: %v", err)\n\t\tcloseDownConn(c, down.id, err.Error())\n\t\treturn err','\t\tlog.Printf("Negotiation failed: %v", err)\n\t\treturn err',
+  'R7.4','failed negotiation','failed negotiation leaves the connection')
+m('C07','video-low-first-track',W,
+  '\t\tt, count := find(webrtc.RTPCodecTypeVideo, true)','\t\tt, count := find(webrtc.RTPCodecTypeVideo, false)',
+  'R7.5','kinds select','video-low gets the high-quality track')
+m('C07','limit-sid-always',W,
+  '\t\tif count < 2 {\n\t\t\tlimitSid = true\n\t\t}','\t\tlimitSid = count < 3',
+  'R7.5','low quality from a non-simulcast','spatial layer limited although a low track exists')
